@@ -8,7 +8,7 @@ CONSTANTS
   Roa <- TraceRoa
   AspaDefs <- TraceAspa
   ParentOf <- TraceParentOf
-  Ops = {"deepremove"}
+  Ops = {"deepremove", "recreate"}
 SPECIFICATION TraceSpec
 INVARIANT TypeOK
 INVARIANT C03_RevokedWhileRelevant
